@@ -36,23 +36,23 @@ Theorem C05_lookup_unbounded_refuted :
 Proof. exact lookup_unbounded_refuted. Qed.
 Print Assumptions C05_lookup_unbounded_refuted.
 
-(* newcounter_total: for every file and every name newCounter returns (a cell
-   or an error) after at most one extension and one walk, without a fault,
-   UNLESS the allocation limit found in the file is so close to 4 GiB that
-   round(end, pageSize) wraps to 0 (`wraps`): see the refutation below *)
-Theorem C05_newcounter_total : forall f H name, table_end H + 4 <= b_len f -> wraps f H name = false ->
+(* newcounter_total: for EVERY file and every name newCounter returns (a cell
+   or an error) after at most one extension and one walk, without a fault.
+   (Before fix 633eed3 this failed for allocation limits just below 4 GiB:
+   finding limit-wrap-hang.) *)
+Theorem C05_newcounter_total : forall f H name, table_end H + 4 <= b_len f ->
   fst (new_counter f H name) <> NFuel /\ fst (new_counter f H name) <> NFault.
 Proof. exact newcounter_total. Qed.
 Print Assumptions C05_newcounter_total.
 
-(* REFUTED in the class `wraps` (known finding limit-wrap-hang): with the
-   limit 0xFFFFFF00 in the file, extend extends nothing and the reservation
-   loop of newCounter never ends *)
-Theorem C05_newcounter_wrap_refuted :
-  table_end wH + 4 <= b_len wrapf /\ wraps wrapf wH nx = true /\
-  forall rfuel, fst (new_counter_gen true true (walk_fuel wrapf) rfuel wrapf wH nx) = NFuel.
-Proof. exact newcounter_wrap_refuted. Qed.
-Print Assumptions C05_newcounter_wrap_refuted.
+(* the file of the former finding: the limit 0xFFFFFF00 makes place return a
+   record whose page end wraps to 0; the call now fails with errCorrupt and
+   leaves the file as it is *)
+Theorem C05_newcounter_wrap_fixed :
+  place32 wH 4294967040 (N.of_nat (length nx)) = (4294967040, 4294967072) /\ round32 4294967072 RPAGE = 0 /\
+  new_counter wrapf wH nx = (NErr RCorrupt, wrapf).
+Proof. exact newcounter_wrap_fixed. Qed.
+Print Assumptions C05_newcounter_wrap_fixed.
 
 (* Parse (the reader, Model/Parse.v of C06) is total on every byte string *)
 Theorem C05_parse_total : forall oob bs, parse_with oob bs <> PDiverge.
@@ -62,15 +62,16 @@ Print Assumptions C05_parse_total.
 (* failure isolation, frame rule: whatever the file, a call newCounter(name),
    successful or not, changes no byte of the file as found except: the limit
    word, the head word of name's own bucket, bytes 8.. of the record it
-   reserved, which lies after the hash table (fix 69df376), and, when a file
+   reserved, which lies after the hash table (fix 69df376) and at or after the
+   limit found in the file (fix 633eed3: no wrap-around), and, when a file
    whose length is not a multiple of 4 is extended, its last <= 3 bytes *)
-Theorem C05_newcounter_frame : forall f H name r f', table_end H + 4 <= b_len f -> wraps f H name = false ->
+Theorem C05_newcounter_frame : forall f H name r f', table_end H + 4 <= b_len f ->
   new_counter f H name = (r, f') ->
   b_len f <= b_len f' /\
   forall o, o < b_len f -> b_at f' o <> b_at f o ->
     in_range (H + c_limitOff) 4 o \/ in_range (head_off H name) 4 o \/
     (let s := fst (place32 H (rd32 f (H + c_limitOff)) (N.of_nat (length name))) in
-     table_end H <= s /\ in_range (s + 8) (8 + N.of_nat (length name)) o) \/
+     table_end H <= s /\ rd32 f (H + c_limitOff) <= s /\ in_range (s + 8) (8 + N.of_nat (length name)) o) \/
     (exists e', b_len f < e' /\ e' <= o + 4).
 Proof. exact new_counter_frame. Qed.
 Print Assumptions C05_newcounter_frame.
@@ -84,9 +85,8 @@ Print Assumptions C05_add_frame.
    below the allocation limit found in the file keeps its value through a
    newCounter call on any name, successful or failed *)
 Theorem C05_other_cell_preserved : forall f H name r f' c,
-  table_end H + 4 <= b_len f -> wraps f H name = false -> new_counter f H name = (r, f') ->
-  table_end H <= c -> c + 12 <= b_len f ->
-  c + 8 <= rd32 f (H + c_limitOff) -> rd32 f (H + c_limitOff) + 2 * RPAGE <= R32 ->
+  table_end H + 4 <= b_len f -> new_counter f H name = (r, f') ->
+  table_end H <= c -> c + 12 <= b_len f -> c + 8 <= rd32 f (H + c_limitOff) ->
   rd64 f' c = rd64 f c.
 Proof. exact other_cell_preserved. Qed.
 Print Assumptions C05_other_cell_preserved.
